@@ -143,9 +143,10 @@ theorem step_canon (bits : ℕ) (regs : Regs) (h : AllCanon bits regs) (op : Op)
   History.step_canon bits regs h op hv
 
 /-- **closure**: after any finite history of modelled safe operations on canonical registers, every
-    register is canonical (40 producers: constants, C01 add/sub/neg, C02 mul, C05 shifts/rotates, C06 bit
-    operations, Ord min/max, C07 conversions and limb-slice constructors, C08 decoders and round trips,
-    generator fills). -/
+    register is canonical (47 producers: constants, C01 add/sub/neg, C02 mul, C03 div/rem, C05
+    shifts/rotates, C06 bit operations and next_power_of_two, Ord min/max, C07 conversions and limb-slice
+    constructors, C08 decoders and round trips, C10 add_mod/mul_mod, C12 gcd, C13 pow, generator fills);
+    each case is one reference to the producer's own specification theorem. -/
 theorem run_canon (bits : ℕ) (hist : List Op) (regs : Regs) (h : AllCanon bits regs)
     (hv : ∀ op ∈ hist, op.Valid) : AllCanon bits (run bits regs hist) := by
   unfold run
